@@ -237,7 +237,13 @@ Value& MemberCONCATExpression::value(Context& ctx) const
   }
 
   if (a0.isNull()) /* + null */
+  {
+    /* a constant of the program is not handed out: the result could be the
+     * receiver of a further in-place method */
+    if (_exp->isConst() && val.lvalue())
+      return ctx.allocate(val.clone());
     return val;
+  }
   switch (val.type().major())
   {
     /* literal */
